@@ -142,6 +142,10 @@ def render(obj, ospec, req, conf_dict, live_conf=None, observe=None):
         if getattr(obj, '_vf_fmt', ospec['fmt']) != req['set_fmt']:
             obj.fmt = req['set_fmt']
             obj._vf_fmt = req['set_fmt']
+    if kind == 'table' and req.get('removed'):
+        # columns were removed from the long-lived table before this request (the reference removes them from
+        # its brand-new table before the first rendering)
+        obj.remove_columns(list(req['removed']))
     conf = live_conf if live_conf is not None else ColorsConfig(conf_dict)
     kw = {}
     made_global = False
@@ -166,6 +170,12 @@ def render(obj, ospec, req, conf_dict, live_conf=None, observe=None):
             res = obj.ch_text(**kw)
         if observe is not None:
             observe(res)
+        if req.get('discard_conf') and live_conf is None and not made_global and req['mode'] != 'interleaved':
+            # the caller made the configuration just for this call and keeps no reference to it: by the time the
+            # result is consumed only the result itself can keep it alive
+            import gc
+            kw = conf = None
+            gc.collect()
         if made_global and req.get('switch_conf') is not None:
             # the result exists, nobody has looked at it yet - and the application installs another global
             # configuration (the result keeps the one that was in force when it was made)
@@ -226,6 +236,7 @@ def main():
     for idx in reversed(range(len(scenario['requests']))):
         req = dict(scenario['requests'][idx])
         req.pop('switch_conf', None)      # (the reference renders without any switch in between)
+        req.pop('discard_conf', None)     # (... and keeps its configuration until the text is taken)
         ospec = scenario['objects'][req['obj']]
         shared = {}
         if ospec['kind'] == 'table' and req.get('set_fmt') and 'base_spec' not in ospec:
